@@ -44,6 +44,16 @@ def gen_stimulus(rs, n):
             if rs.below(5) == 0:
                 cur["d"] = rs.choice([0, 1, 2, 4, 8, 15])
         out.append(cur)
+    # step-condition input of the clocked contexts that have one (low in about a quarter of the steps, in short runs) and
+    # the reset input, held inactive throughout (drawn from a stream of its own: the other inputs are as before)
+    rs2 = rs.sub("en")
+    low = 0
+    for cur in out:
+        if low:
+            low -= 1
+        elif rs2.below(6) == 0:
+            low = rs2.range(1, 3)
+        cur["en"] = 0 if low else 1
     return out
 
 
@@ -114,6 +124,8 @@ def run_one(seed, idx, tier):
     for j in range(nstim):
         srs = rng.Stream(seed, "C03", "stimulus", idx, j)
         stim = gen_stimulus(srs, srs.range(30, 80 if tier == "quick" else 200))
+        for s_ in stim:
+            s_["rst"] = 1 if prog.get("rst_low") else 0  # inactive level
         oseed = rng.derive(seed, "C03", "order", idx, j)
         mode = ("uniform", "uniform", "reverse", "stable")[rng.Stream(oseed, "mode").below(4)]
         status, detail, stats = simulate(prog, text, tn, stim, oseed, mode)
